@@ -63,6 +63,14 @@ def C(*post):
 
 
 D = {"op": "d"}   # Store.Delete() = delete all datasets
+
+
+def K(ds):
+    """DsManager.DeleteDataset("ds<ds>") (no-op when it does not exist)"""
+    return {"op": "k", "ds": ds}
+
+
+DROP_ID = 1000
 F = {"op": "f"}   # rsync-mode run whose rsync exits non-zero
 
 
@@ -122,6 +130,11 @@ def witness_cases():
         # rsync mode, with a failing rsync followed by good runs
         mk([W(0, 1, 3), F, W(0, 2, 4), B], rsync=True),
         mk([W(0, 1, 3), B, W(0, 2, 4), F, B, R, F, W(1, 1, 1), B, B], rsync=True),
+        mk([W(0, 1, 3), B, W(0, 2, 4), W(1, 1, 1), B], rsync=True),          # two good runs in one hub life
+        # a dataset is deleted after a run, the hub restarts before the next run
+        mk([W(0, 1, 3), W(1, 1, 1), B, K(0), R, B]),
+        mk([W(0, 1, 3), W(1, 0, 2), B, R, K(1), R, B]),
+        mk([W(0, 1, 3), B, K(0), W(0, 2, 2), R, B, K(0), K(1), R, R, B]),
         # store version beyond 127 / 255 at the time of a run, then restart, write, run
         mk(burst(None, 40) + [B, R, W(1, 1, 1), B]),
         mk(burst(None, 72) + [B, R, W(1, 1, 1), W(1, 2, 2), B]),
@@ -180,6 +193,20 @@ def gen(rng, tier):
         for _ in range(n_pre):      # pre-filled location, ids from the adversarial alphabet
             sid = rng.choice([None] + IDS)
             out.append(mk(rand_hist(rng, 6, env=1, sid=sid) + [B], foreign=True, sid=sid, locid0=rand_id(rng, sid)))
+    def drops(n):                   # dataset deletes, mostly followed by a restart before the next run
+        for _ in range(n):
+            ops = []
+            for o in rand_hist(rng, 10):
+                ops.append(o)
+                if o["op"] == "b" and rng.chance(1, 2):
+                    ops.append(K(rng.below(2)))
+                    if rng.chance(2, 3):
+                        ops.append(R)
+                elif o["op"] == "r" and rng.chance(1, 3):
+                    ops += [K(rng.below(2)), R]
+            ops.append(B)
+            out.append(mk(ops))
+
     def special(n_conc, n_del, n_rsync, n_burst):
         for _ in range(n_conc):     # some runs have a writer committing during the run
             ops = rand_hist(rng, 9)
@@ -219,12 +246,14 @@ def gen(rng, tier):
             out.append(mk(rand_hist(rng, 11), sid=rng.choice([None, None, None] + IDS)))
         idcases(40, 20)
         special(14, 10, 10, 4)
+        drops(14)
         return out
     if tier == "search":
         for _ in range(120):
             out.append(mk(rand_hist(rng, 9)))
         idcases(60, 40)
         special(30, 20, 20, 8)
+        drops(30)
         return out
     # thorough: every shape over {w,b,r} up to length 6, PRNG payloads
     for n in range(1, 7):
@@ -237,6 +266,7 @@ def gen(rng, tier):
         out.append(mk(rand_hist(rng, 14)))
     idcases(300, 150)
     special(120, 80, 60, 30)
+    drops(120)
     # one history that takes the store version past 16383 (2-byte varint boundary; about 4600 single-entity batches)
     out.append(mk(burst(rng, 4600) + [B, R, W(1, 1, 1), B]))
     return out
@@ -246,8 +276,49 @@ DIED = {"maxv": [], "cursor": [], "disk": [], "bres": [], "grew": [], "snap": No
         "restored": None, "hasrest": False, "richeq": False, "raweq": False, "sid": "", "locid": [], "touched": [], "sidv": [], "running": [], "diskraw": [], "post": []}
 
 
+_PRIVATE = {}
+
+
+def private_build():
+    """vlib.go_build writes build/verif_c20 and build/overlay_C20.json whatever VERIF_REPO is, so two checks running at
+    the same time against different trees (seedcheck in a scratch worktree + a check of /repo) overwrite each other's
+    driver: the check of /repo then runs the OTHER tree's code.  (That was the false alarm of 2026-10-01: the /repo
+    check executed the driver built from a seeded worktree.)  The driver that is actually run is therefore built here,
+    into a path unique to this process, and removed at exit."""
+    if "bin" in _PRIVATE:
+        return _PRIVATE["bin"]
+    import atexit
+    import json
+    import subprocess
+    hd = os.path.join(vlib.VERIF, "harness", ID)
+    repl = {}
+    for line in open(os.path.join(hd, "overlay.map")):
+        line = line.strip()
+        if line and not line.startswith("#"):
+            dest, src = line.split()
+            repl[os.path.join(vlib.REPO, dest)] = os.path.join(hd, src)
+    ov = os.path.join(vlib.BUILD, "overlay_C20_%d.json" % os.getpid())
+    binp = os.path.join(vlib.BUILD, "verif_c20_%d" % os.getpid())
+    json.dump({"Replace": repl}, open(ov, "w"))
+
+    def cleanup():
+        for f in (ov, binp):
+            try:
+                os.remove(f)
+            except OSError:
+                pass
+    atexit.register(cleanup)
+    p = subprocess.run(["go", "build", "-tags", "verif", "-overlay", ov, "-o", binp, "./" + DRIVER_PKG],
+                       cwd=vlib.REPO, env=vlib.goenv(), stdout=subprocess.PIPE, stderr=subprocess.STDOUT, text=True)
+    if p.returncode != 0:
+        raise vlib.BuildError(p.stdout)
+    _PRIVATE["bin"] = binp
+    return binp
+
+
 def run(binp, cases):
     """one driver process per 200 cases: bounds the memory of a driver (every store open maps a 128 MB memtable)"""
+    binp = private_build()
     env = {"VERIF_C20_WORKERS": os.environ.get("VERIF_C20_WORKERS", "2")}
     obs = []
     for i in range(0, len(cases), 200):
@@ -283,6 +354,9 @@ def term(c, o):
         m = maxv[i + 1]
         if op["op"] == "w":
             t_ops.append("OWrite %d %d %d %d %s" % (m, op["ds"], op["k"], op["v"], vlib.coq_bool(op.get("del", False))))
+        elif op["op"] == "k":
+            # deleting a dataset is a commit like any other: an entry under the reserved id DROP_ID of that dataset
+            t_ops.append("OWrite %d %d %d 0 true" % (m, op["ds"], DROP_ID))
         elif op["op"] in "bcf" and c.get("rsync"):
             t_ops.append("OBackupRsync %s" % vlib.coq_bool(op["op"] != "f"))
         elif op["op"] == "c" and good and i < len(o["post"]) and o["post"][i]:
